@@ -63,6 +63,9 @@ fn spaces(rx_packet: u64) -> [PacketSpace; 3] {
     for (i, sp) in s.iter_mut().enumerate() {
         sp.crypto = Some(keys(10 + i as u8));
         sp.rx_packet = rx_packet;
+        // the modelled states are those in which packet `rx_packet` HAS been received (the state
+        // before the first packet of a space is exercised by the simulator)
+        sp.dedup.insert(rx_packet);
     }
     s
 }
